@@ -334,6 +334,53 @@ pub fn run(ctx: &Ctx) -> i32 {
             }
         }
         pipeline::set_aux_variant(0);
+        // 1c. the PHC's error bound changes while one poller lives (one invocation of the real polling loop, the
+        // attribute is a sysfs-like file: same metadata whatever it contains): every poll adds the current value
+        {
+            let f = dir.join("phc_error_bound_lifetime");
+            let values: Vec<i64> = vec![1000, 250_000, 4_000_000, 90_000, 90_000, 1, 1 << 40, 0];
+            let spec = TrackSpec { ref_id: ID, leap: 0, ref_time_ns: NOW_REAL - 1_000_000_000, offset_bits: encode_float(0.0002), delay_bits: encode_float(0.00005), disp_bits: encode_float(0.00001), interval_bits: encode_float(16.0) };
+            vclock::arm(VClock { real_ns: NOW_REAL, mono_ns: NOW_MONO, auto_advance_ns: 0, fail_errno: 0, fail_clock: -1 });
+            let (vals, f2) = (values.clone(), f.clone());
+            let r = std::panic::catch_unwind(std::panic::AssertUnwindSafe(|| {
+                let mut life = PollerLife::new();
+                let msgs = life.run_lifetime(
+                    Some(clock_bound_d::PhcInfo { refid: ID, sysfs_error_bound_path: f.clone() }),
+                    vals.len(),
+                    move |k| {
+                        pipeline::write_sysfs_like(&f2, vals[k]);
+                        Query { answer: Answer::Wire(pipeline::tracking_wire(&spec, 9)), latency_ns: 0 }
+                    },
+                    |_| {},
+                );
+                msgs.into_iter().map(|m| pipeline::published_for(m, 1000)).collect::<Vec<_>>()
+            }));
+            vclock::disarm();
+            match r {
+                Ok(per_poll) => {
+                    for (k, recs) in per_poll.iter().enumerate() {
+                        poller_cases += 1;
+                        let (lo, hi) = accepted_bound(&spec, values[k]).unwrap();
+                        let doc = json!({"route": "through the poller, one lifetime, PHC error bound changing between polls", "poll": k, "phc_values_ns": values, "report": spec_json(&spec, values[k])});
+                        match recs.first() {
+                            Some(rec) if recs.len() == 1 => {
+                                tally.evaluated += 1;
+                                tally.judged += 1;
+                                let g = rec.bound as i128;
+                                if g < lo || g > hi {
+                                    tally.add(if g < lo { "C07:phc-term-missing-or-too-small" } else { "C07:phc-term-too-large" }, format!("poll {k} of one poller lifetime in which the PHC's error bound read {:?} ns: published bound {g} ns, expected {lo}..{hi} ns", &values[..=k]), doc);
+                                }
+                            }
+                            _ => tally.add("C07:poller-route-publications", format!("{} publications for poll {k}", recs.len()), doc),
+                        }
+                    }
+                    if per_poll.len() != values.len() {
+                        tally.add("C07:poller-route-publications", format!("{} polls took place, {} scripted", per_poll.len(), values.len()), json!({"route": "through the poller, one lifetime"}));
+                    }
+                }
+                Err(_) => tally.add("C07:panic", "the poller or the writer loop panicked".into(), json!({"route": "through the poller, one lifetime"})),
+            }
+        }
     }
     // 2. whole-field sweeps
     let mut sweeps: Vec<Value> = vec![];
